@@ -218,6 +218,11 @@ def loop_value_names(f: Func, target: ast.AST, it: ast.AST, mapping: Callable[[a
     bases = iter_base(f, it, ordered=False)
     if not bases:
         return None
+    base_pred = mapping
+
+    def mapping(e):  # the mapping may sit in a local
+        return any_origin(f, e, base_pred)
+
     vals: set[str] = set()
     keys: set[str] = set()
     for b in bases:
@@ -379,6 +384,16 @@ def truth_if(e: ast.AST, atom: Callable[[ast.AST], bool], value: bool = True):
 # --------------------------------------------------------------------------- CFG helpers
 
 
+def node_calls(g, n) -> list[ast.Call]:
+    """`n.calls()` memoised on the CFG object (the engine re-walks the AST on every call)."""
+    cache = g.__dict__.setdefault("_utilB_calls", {})
+    r = cache.get(n.id)
+    if r is None:
+        r = cache[n.id] = n.calls()
+    return r
+
+
+
 def branch_succ(g, test_id: int, kind: str) -> list[int]:
     return [b for b, k in g.succ[test_id] if k == kind]
 
@@ -399,6 +414,23 @@ def exclusive_region(g, test_id: int, kind: str, stop: Iterable[int] = ()) -> se
     a = g.reach(branch_succ(g, test_id, kind), avoid=avoid, include_src=True) - avoid
     b = g.reach(branch_succ(g, test_id, other), avoid=avoid, include_src=True) - avoid
     return a - b
+
+
+def loop_unconditional(g, head: int, targets: list[int]) -> tuple[bool, str]:
+    """Each iteration of the loop headed by `head` passes exactly one target node and the body
+    cannot leave the loop other than through the head."""
+    if not targets:
+        return False, "the loop body does not contain it"
+    ts = branch_succ(g, head, "t")
+    for s in ts:
+        if s not in targets and g.path(s, [head], avoid=targets) is not None:
+            return False, "an iteration can skip it"
+        if g.path(s, [g.exit], avoid=[head]) is not None and s != g.exit:
+            return False, "the loop can be left before all elements are visited"
+    for a in targets:
+        if set(targets) & g.reach([a], avoid=[head]):
+            return False, "it can execute twice in one iteration"
+    return True, ""
 
 
 # --------------------------------------------------------------------------- bounded path exploration
